@@ -44,6 +44,10 @@ type CConn struct {
 	At      int    `json:"at,omitempty"`    // the fault comes after this many requests (0..N)
 	Variant int    `json:"variant,omitempty"`
 	Cut     int    `json:"cut,omitempty"` // eof/reset: bytes of request At+1 fed before the disconnect (0: at the boundary)
+	// StuckWrite (panic / garbage, At >= 1): when the fault happens a Write of another goroutine
+	// (an asynchronous answer, a server-initiated request) is stuck in this connection's
+	// transport because the peer does not read. The connection must be closed all the same.
+	StuckWrite bool `json:"stuck_write,omitempty"`
 }
 
 type Step struct {
@@ -281,12 +285,17 @@ func waitAnswers(mc *memnet.Conn, tag, upto int, timeout time.Duration) (missing
 func runCase(c Case) *ev.Failure {
 	nconn := len(c.Conns)
 	mux := diam.NewServeMux()
+	var connMu sync.Mutex
+	connOf := map[int]diam.Conn{}
 	mux.HandleFunc("ALL", func(conn diam.Conn, m *diam.Message) {
 		if _, marked := u32(m, codeMarker); marked {
 			panic("scripted handler panic")
 		}
 		a := m.Answer(2001)
 		if ci, ok := u32(m, codeConn); ok {
+			connMu.Lock()
+			connOf[ci] = conn
+			connMu.Unlock()
 			a.AddAVP(diam.NewAVP(codeConn, 0x40, 0, datatype.Unsigned32(ci)))
 		}
 		if s, ok := u32(m, codeSeq); ok {
@@ -344,6 +353,7 @@ func runCase(c Case) *ev.Failure {
 	healthy := func(i int) bool { return c.Conns[i].Fault == "" }
 	sent := make([]int, nconn) // requests fed so far on healthy connections
 
+	unstick := make(chan struct{})
 	run := func() *ev.Failure {
 		for _, a := range timeline(&c) {
 			switch a.kind {
@@ -369,10 +379,35 @@ func runCase(c Case) *ev.Failure {
 						}
 					}
 				}
-			case "panic":
-				conns[a.conn].Feed(request(a.conn, a.seq, true))
-			case "garbage":
-				conns[a.conn].Feed(garbage(c.Conns[a.conn].Variant))
+			case "panic", "garbage":
+				if cc := c.Conns[a.conn]; cc.StuckWrite && a.seq >= 2 {
+					// the answers to the requests so far are out; the next write gets stuck
+					if miss, _ := waitAnswers(conns[a.conn], a.conn, a.seq-1, promptDeadline); miss == 0 {
+						connMu.Lock()
+						dc := connOf[a.conn]
+						connMu.Unlock()
+						in := make(chan struct{}, 1)
+						conns[a.conn].WriteHook = func(b []byte, accept func([]byte)) (int, error) {
+							select {
+							case in <- struct{}{}:
+							default:
+							}
+							<-unstick
+							return 0, errors.New("write: broken pipe")
+						}
+						go dc.Write(request(a.conn, 9000, false))
+						select {
+						case <-in:
+						case <-time.After(promptDeadline):
+							return ev.Failf("harness-write", "connection %d: the server-side Write did not reach the transport", a.conn)
+						}
+					}
+				}
+				if a.kind == "panic" {
+					conns[a.conn].Feed(request(a.conn, a.seq, true))
+				} else {
+					conns[a.conn].Feed(garbage(c.Conns[a.conn].Variant))
+				}
 			case "eof", "reset":
 				if cut := c.Conns[a.conn].Cut; cut > 0 {
 					r := request(a.conn, a.seq, false)
@@ -486,6 +521,7 @@ func runCase(c Case) *ev.Failure {
 		return serveReturned()
 	}
 	fail := run()
+	close(unstick)
 
 	// shut down: no goroutine survives the case
 	all := append(append([]*memnet.Conn{}, conns...), late)
@@ -525,6 +561,9 @@ func genCase(t *rapid.T) Case {
 			switch cc.Fault {
 			case "garbage":
 				cc.Variant = rapid.IntRange(0, garbageVariants-1).Draw(t, "variant")
+				cc.StuckWrite = cc.At >= 1 && rapid.IntRange(0, 2).Draw(t, "stuck-write") == 0
+			case "panic":
+				cc.StuckWrite = cc.At >= 1 && rapid.IntRange(0, 2).Draw(t, "stuck-write") == 0
 			case "eof", "reset":
 				if rapid.Bool().Draw(t, "mid-message") {
 					cc.Cut = rapid.IntRange(1, 43).Draw(t, "cut")
@@ -595,6 +634,9 @@ func classify(c Case) (bool, []string) {
 		if (cc.Fault == "eof" || cc.Fault == "reset") && cc.Cut > 0 {
 			add("disconnect-mid-message")
 		}
+		if cc.StuckWrite && (cc.Fault == "panic" || cc.Fault == "garbage") && cc.At >= 1 {
+			add("fault-while-a-write-is-stuck:" + cc.Fault)
+		}
 	}
 	add(fmt.Sprintf("faulty-conns:%d", nf))
 	tl := timeline(&c)
@@ -640,7 +682,7 @@ func classify(c Case) (bool, []string) {
 
 var prop = ev.Register(&ev.Prop[Case]{
 	ID: "C15", Name: "isolation",
-	Rule: "Server.Serve on a memnet.Listener; 2..5 connections with 1..6 numbered requests; faults: a marked request whose handler panics, undecodable bytes (5 variants), EOF / reset at a message boundary or inside a message, at position 0..N of the connection's sequence; 0..3 temporary accept errors; a scripted global interleaving of open / feed actions, each optionally awaited (answer received / faulty transport closed) before the script continues; at the end every healthy connection must hold the answer to each of its requests, every faulty transport must be closed, undecodable input must have been offered to the ErrorReporter with that connection, a connection opened afterwards must be served and Serve must not have returned; non-trivial = a fault (or accept error) is scripted between two requests of a healthy connection",
+	Rule: "Server.Serve on a memnet.Listener; 2..5 connections with 1..6 numbered requests; faults: a marked request whose handler panics, undecodable bytes (5 variants), either of them optionally while a server-side Write of another goroutine is stuck in that connection's transport, EOF / reset at a message boundary or inside a message, at position 0..N of the connection's sequence; 0..3 temporary accept errors; a scripted global interleaving of open / feed actions, each optionally awaited (answer received / faulty transport closed) before the script continues; at the end every healthy connection must hold the answer to each of its requests, every faulty transport must be closed, undecodable input must have been offered to the ErrorReporter with that connection, a connection opened afterwards must be served and Serve must not have returned; non-trivial = a fault (or accept error) is scripted between two requests of a healthy connection",
 	Gen:  genCase, Run: runCase, Classify: classify, Attempts: 5,
 })
 
